@@ -1,3 +1,4 @@
 import GdcVerif.Driver.Main
 import GdcVerif.Driver.J2k
-def main : IO Unit := Drv.run [Drv.J2k.step?]
+import GdcVerif.Driver.J2kGlue
+def main : IO Unit := Drv.run [Drv.J2k.step?, Drv.Glue.step?]
